@@ -199,6 +199,16 @@ def b_dupunion(ch):
     return finish_deck(st, [(1, e), (2, ('^', 1))], imps)
 
 
+def b_forward(ch):
+    """#n of a cell defined later in the deck; cell numbers not in card order"""
+    st = St('c01 forward')
+    e = choose_tree(ch, 'e', [2, 1, 3], LITS4, compl=True, free=False)
+    e2 = choose_tree(ch, 'e2', [1, 2], LITS3, free=False)
+    imps = ch.choose('imps', [(1, 1, 1), (1, 0, 1), (0, 1, 1), (1, 1, 0)], free=False)
+    cells = [(30, ('*', ('^', 7), ('^', 12))), (7, ('*', e2, ('^', 12))), (12, e)]
+    return finish_deck(st, cells, imps)
+
+
 def b_chain(free=False):
     """#n of a cell that itself uses #m and #( ): complement chains."""
     def build(ch):
@@ -228,6 +238,7 @@ def scenarios(tier):
                 'sphere, cylinder, one-sheet cones (surface collections) and planes, k<=2; witnesses + lattice'),
             Scn('p2-dup-k3', b_p2(LITSD, [1, 2, 3]), None, None,
                 'one surface under several numbers (slivers that become patently empty after de-duplication)'),
+            Scn('forward-ref', b_forward, 3, 4, '#n of cells defined later; numbers not in card order'),
             Scn('dup-union', b_dupunion, None, None, 'unions with members that are empty only after de-duplication'),
             Scn('nonpure-union', b_nonpure, None, None, 'unions of intersections that contain unions (helper planes)'),
             Scn('p4-k3', b_p4(LITS4, [1, 2, 3], free=False), 2, 3, 'explicit De Morgan partner'),
